@@ -95,11 +95,16 @@ def run(ctx: Context) -> None:
                 for cond in g.ifs:
                     if isinstance(cond, ast.Compare) and isinstance(cond.ops[0], ast.NotIn) and norm(cond.left) == "k.lower()" and isinstance(cond.comparators[0], (ast.Tuple, ast.List, ast.Set)):
                         excl = {e.value for e in cond.comparators[0].elts if isinstance(e, ast.Constant)}
+                # the :authority value may be a local of any name or the expression itself: judged below (obligation `authority`)
+                auth_expr = alts[0].left.elts[1].elts[1] if len(alts[0].left.elts) > 1 and isinstance(alts[0].left.elts[1], ast.Tuple) and len(alts[0].left.elts[1].elts) == 2 else None
+                if auth_expr is not None:
+                    pseudo[1] = f"({norm(alts[0].left.elts[1].elts[0])},authority)"
                 ok = pseudo == ["(b':method',request.method)", "(b':authority',authority)", "(b':scheme',request.url.scheme)", "(b':path',request.url.target)"] and \
                     norm(lc.elt) == "(k.lower(),v)" and norm(g.iter) == "request.headers" and norm(g.target) == "(k,v)" and excl == {b"host", b"transfer-encoding"} and len(g.ifs) == 1
                 detail = f"pseudo={pseudo} rest={norm(lc.elt)} for {norm(g.target)} in {norm(g.iter)} excluding {sorted(excl)}"
             rep.ob("C03.R3", fkey(tree, s2, "header-block"), ok, where(s2, c), detail)
-            auth = [norm(a) for a in ctx.prov.expand(ast.Name(id="authority", ctx=ast.Load()), s2, c, depth=2)]
+            auth_src = locals().get("auth_expr")
+            auth = [norm(a) for a in ctx.prov.expand(auth_src, s2, c, depth=2)] if auth_src is not None else []
             rep.ob("C03.R3", fkey(tree, s2, "authority"), bool(auth) and all("request.headers" in a and "b'host'" in a and (a.endswith("[0]") or (a.startswith("next(") and a.endswith(",None)"))) for a in auth), where(s2, c), f":authority <- {auth}")
             rep.ob("C03.R3", fkey(tree, s2, "stream-id"), norm(c.args[0]) == "stream_id", where(s2, c), "headers are sent on the routine's stream id")
             es = [norm(k.value) for k in c.keywords if k.arg == "end_stream"]
